@@ -299,7 +299,28 @@ func c13NameMatching(c *Ctx) {
 		c.Check("C13.R6", fk+":label-idiom", fn.Pos(), ok, "labels are split and re-joined on \".\"", "wildcard candidates are not built by splitting and joining on the same \".\" separator")
 	}
 	// normalisation: the name is lower-cased before any comparison
-	low := callsIn(fn, false, func(cc *ssa.CallCommon) bool { return strings.HasSuffix(calleeName(cc), "strings.ToLower") })
+	low := callsIn(fn, false, func(cc *ssa.CallCommon) bool {
+		if strings.HasSuffix(calleeName(cc), "strings.ToLower") {
+			return true
+		}
+		// a normalising helper of the package (round 16: the lower-casing may be factored out): every return of it
+		// derives from a strings.ToLower call
+		callee := cc.StaticCallee()
+		if callee == nil || callee.Pkg != fn.Pkg || len(callee.Blocks) == 0 || callee.Signature.Results().Len() != 1 {
+			return false
+		}
+		all, any := true, false
+		for _, in := range instrsWhere(callee, isReturn) {
+			any = true
+			if !derivesFrom(unspill(in.(*ssa.Return), 0), func(v ssa.Value) bool {
+				cl, isC := v.(*ssa.Call)
+				return isC && strings.HasSuffix(calleeName(cl.Common()), "strings.ToLower")
+			}) {
+				all = false
+			}
+		}
+		return any && all
+	})
 	okLow := len(low) >= 1
 	if okLow {
 		forEachInstr(fn, false, func(_ *ssa.Function, in ssa.Instruction) {
